@@ -250,6 +250,12 @@ M = [('r3_revert_D3_eventmonitor_port',
    ('        window_range = self.bus.memory_map.add_window(sub_bus.memory_map, name=name, addr=addr,\n',
     '        self._subs[sub_bus.memory_map] = sub_bus\n        window_range = self.bus.memory_map.add_window(sub_bus.memory_map, name=name, addr=addr,\n')],
   None),
+ # D16 reverted (one of the six sites): the storage view is iterated directly
+ ('r21_D16_w1c_iterates_view',
+  'amaranth_soc/csr/action.py',
+  [('        hw_set  = Value.cast(self.set)\n\n        for i, storage_bit in enumerate(storage):\n',
+    '        hw_set  = Value.cast(self.set)\n\n        for i, storage_bit in enumerate(self._storage):\n')],
+  None),
  ('r17_D12_pinsignature_eq_constant',
   'amaranth_soc/gpio.py',
   [('        return isinstance(other, PinSignature)\n',
